@@ -256,7 +256,21 @@ def fam_dirty(ctx):
     return {"must_report": ["ST.dirty|dirty_touch_bad", "ST.dirty|dirty_flush_then_add_bad"], "must_not_report": ["ST.dirty|dirty_add_ok", "ST.dirty|dirty_pop_ok"]}
 
 
-FAMILIES = {"dirty": fam_dirty, "recursion": fam_recursion, "bounds": fam_bounds, "errflow": fam_errflow, "fold": fam_fold, "readloop": fam_readloop, "lock": fam_lock, "gate": fam_gate, "publish": fam_publish, "taint": fam_taint, "panic": fam_panic, "loop": fam_loop, "slice": fam_slice}
+def fam_stale(ctx):
+    from . import stale
+    from .engine import Ctx
+    sub = Ctx(ctx.prog, ctx.prop, ctx.tier, selftest=True)
+    n = stale.rule_stale(sub, "ST.stale", "verif_selftest", r"src/")
+    if n < 3:
+        raise RuntimeError("selftest: E-stale examined %d methods in the witness crate, expected at least 3" % n)
+    bad = {v.key.split("|")[1].split("::")[-1] for v in sub.violations}
+    for i in ("stale_link_bad", "stale_known_ok", "stale_fresh_ok"):
+        b = body(ctx, i)
+        (ctx.bad if i in bad else ctx.ok)("ST.stale", [i], "stale snapshot written back" if i in bad else "silent", b.loc())
+    return {"must_report": ["ST.stale|stale_link_bad"], "must_not_report": ["ST.stale|stale_known_ok", "ST.stale|stale_fresh_ok"]}
+
+
+FAMILIES = {"stale": fam_stale, "dirty": fam_dirty, "recursion": fam_recursion, "bounds": fam_bounds, "errflow": fam_errflow, "fold": fam_fold, "readloop": fam_readloop, "lock": fam_lock, "gate": fam_gate, "publish": fam_publish, "taint": fam_taint, "panic": fam_panic, "loop": fam_loop, "slice": fam_slice}
 
 
 def for_families(names):
